@@ -2253,6 +2253,14 @@ class Interp:
             return int(getattr(re, fq[3:]))
         if fq in _ABC_TYPES:
             return _ABC_TYPES[fq]
+        if fq in ("urllib.parse.unquote", "urllib.parse.unquote_plus", "urllib.parse.quote", "urllib.parse.quote_plus") and not _has_sym(args) and not _has_sym(kwargs) and not str(kwargs.get("errors", "")).startswith("werkzeug"):
+            # a pure stdlib function applied to constants (same footing as running `re` on folded constants)
+            import urllib.parse as _up
+
+            try:
+                return getattr(_up, fq.rsplit(".", 1)[1])(*args, **kwargs)
+            except (TypeError, ValueError, LookupError) as e:
+                raise Raised(ExcVal(type(e).__name__, (str(e),), type(e)), self.cur)
         if fq == "itertools.repeat":
             x0 = args[0]
             if len(args) > 1 or "times" in kwargs:
